@@ -273,3 +273,67 @@ def known_shapes():
     out.append(("fixed-left-recursive-branch-without-operator", _g("A", [("e", alt(concat(n("e"), rename("x")), A), False)], start="e"),
                 [("", ["A"])]))
     return out
+
+
+# ---------------------------------------------------------------------------------------------
+# C11: one injected error per grammar
+# ---------------------------------------------------------------------------------------------
+
+def injected_errors(rng: random.Random, grammars):
+    """(label, grammar text) pairs: an accepted model grammar rendered canonically with one error spliced in"""
+    from .model import render
+    out = []
+    inj = [
+        ("E003-undefined-rule", lambda t: _after_first_rule_colon(t, " undefined_rule_x "), None),
+        ("E012-left-rec-conflict", lambda t: "token Zl Zn ;\n" + t + "lrc : lrc Zl lrc | lrc Zl | Zn ;\npart lrc ;\n", None),
+        ("E004-undefined-token", lambda t: _after_first_rule_colon(t, " Undefined_tok "), None),
+        ("E005-redefinition", lambda t: t + "s : s_again ;\ns_again : ;\n", None),
+        ("E006-uppercase-rule", lambda t: t + "Upper : ;\n", None),
+        ("E007-lowercase-token", lambda t: "token lower ;\n" + t, None),
+        ("E008-missing-start", lambda t: "\n".join(l for l in t.split("\n") if not l.startswith("start ")), None),
+        ("E009-reference-start", lambda t: t + "refs_start : s ;\npart refs_start ;\n", None),
+        ("E010-predefined-name", lambda t: "token EOF ;\n" + t, None),
+        ("E011-alt-conflict", lambda t: "token Zc ;\n" + t + "conflict_rule : Zc | Zc Zc ;\npart conflict_rule ;\n", None),
+        ("E013-rep-conflict", lambda t: "token Zc ;\n" + t + "conflict_rule : Zc * Zc ;\npart conflict_rule ;\n", None),
+        ("E014-opt-conflict", lambda t: "token Zc ;\n" + t + "conflict_rule : [ Zc ] Zc ;\npart conflict_rule ;\n", None),
+        ("E015-no-tokens-consumed", lambda t: t + "empty_rec : empty_rec2 ;\nempty_rec2 : empty_rec ;\npart empty_rec ;\n", None),
+        ("E016-skip-twice", lambda t: "token Zs ;\nskip Zs ;\nskip Zs ;\n" + t, None),
+        ("E017-used-skipped", lambda t: "token Zs ;\nskip Zs ;\n" + t + "uses_skipped : Zs ;\npart uses_skipped ;\n", None),
+        ("E018-expected-token", lambda t: t + "skip s ;\n", None),
+        ("E019-right-twice", lambda t: "token Zr ;\nright Zr ;\nright Zr ;\n" + t, None),
+        ("E020-mixed-assoc", lambda t: "token Zr Zl Zn ;\nright Zr ;\n" + t + "mixed : mixed ( Zr | Zl ) mixed | Zn ;\npart mixed ;\n", None),
+        ("E021-elide-left-rec", lambda t: "token Zl Zn ;\n" + t + "elr : elr Zl ^ | Zn ;\npart elr ;\n", None),
+        ("E022-marker-twice", lambda t: "token Zn ;\n" + t + "mk : <1 Zn <1 Zn 1>x ;\npart mk ;\n", None),
+        ("E023-undefined-creation", lambda t: "token Zn ;\n" + t + "mk : Zn 7>x ;\npart mk ;\n", None),
+        ("E024-invalid-creation", lambda t: "token Zn ;\n" + t + "mk : ( <1 Zn ) 1>x ;\npart mk ;\n", None),
+        ("E025-rule-creation-left-rec", lambda t: "token Zl Zn ;\n" + t + "crl : crl Zl > | Zn ;\npart crl ;\n", None),
+        ("E026-expected-rule", lambda t: "token Zn ;\n" + t + "part Zn ;\n", None),
+        ("E027-missing-node-name", lambda t: "token Zn ;\n" + t + "mn : Zn @ ;\npart mn ;\n", None),
+        ("E028-nested-choice", lambda t: "token Za Zb ;\n" + t + "nc : nc2 Za / nc2 Zb ;\nnc2 : Za Za / Za Zb ;\npart nc ;\n", None),
+        ("E029-action-in-choice", lambda t: "token Za Zb ;\n" + t + "ac : Za #1 Za / Za Zb ;\npart ac ;\n", None),
+        ("E030-return-in-start", lambda t: _after_first_rule_colon(t, " & ", rule="s"), None),
+        ("E031-two-starts", lambda t: t + "start s ;\n", None),
+        ("E032-elision-in-start", lambda t: _after_first_rule_colon(t, " ^ ", rule="s"), None),
+        ("E033-part-twice", lambda t: "token Zn ;\n" + t + "pt : Zn ;\npart pt ;\npart pt ;\n", None),
+        ("E034-start-as-part", lambda t: t + "part s ;\n", None),
+        ("syntax-error", lambda t: t.replace(" ;\n", " ( ;\n", 1), None),
+        ("E002-predicate-position", lambda t: "token Zn ;\n" + t + "pp : Zn ?1 Zn ;\npart pp ;\n", None),
+    ]
+    if not grammars:
+        return out
+    for i, (label, f, _) in enumerate(inj):
+        g = grammars[i % len(grammars)]
+        t = render(g)
+        g.text = None
+        t2 = f(t)
+        if t2 and t2 != t:
+            out.append((label, t2))
+    return out
+
+
+def _after_first_rule_colon(t, ins, rule=None):
+    import re as _re
+    m = _re.search((r"^" + rule + r" :") if rule else r"^[a-z]\w* :", t, _re.M)
+    if not m:
+        return None
+    return t[:m.end()] + ins + t[m.end():]
